@@ -2,7 +2,11 @@
 // from the run's choice stream.
 package rand
 
-import "verif.local/sim/rt"
+import (
+	"unsafe"
+
+	"verif.local/sim/rt"
+)
 
 //go:norace
 func bits16() uint64 {
@@ -71,20 +75,30 @@ func (simSource) Seed(int64)   {}
 
 func NewSource(int64) Source { return simSource{} }
 
-type Rand struct{}
+// Rand: a generator value of its own, as rand.New returns. Unlike the package-level functions it is NOT safe for
+// concurrent use in the real package; every method therefore counts as a write to the generator's state, so that
+// the race detector sees two tasks sharing one *Rand without synchronisation.
+type Rand struct{ state uint64 }
 
-func New(Source) *Rand                        { return &Rand{} }
-func (*Rand) Uint32() uint32                  { return Uint32() }
-func (*Rand) Uint64() uint64                  { return Uint64() }
-func (*Rand) Int63() int64                    { return Int63() }
-func (*Rand) Int31() int32                    { return Int31() }
-func (*Rand) Int() int                        { return Int() }
-func (*Rand) Int63n(n int64) int64            { return Int63n(n) }
-func (*Rand) Int31n(n int32) int32            { return Int31n(n) }
-func (*Rand) Intn(n int) int                  { return Intn(n) }
-func (*Rand) Float64() float64                { return Float64() }
-func (*Rand) Float32() float32                { return Float32() }
-func (*Rand) Seed(int64)                      {}
-func (*Rand) Perm(n int) []int                { return Perm(n) }
-func (*Rand) Shuffle(n int, f func(i, j int)) { Shuffle(n, f) }
-func (*Rand) Read(p []byte) (int, error)      { return Read(p) }
+//go:norace
+func (r *Rand) touch() {
+	if r != nil {
+		rt.RaceWriteRange(unsafe.Pointer(&r.state), 8)
+	}
+}
+
+func New(Source) *Rand                          { return &Rand{} }
+func (r *Rand) Uint32() uint32                  { r.touch(); return Uint32() }
+func (r *Rand) Uint64() uint64                  { r.touch(); return Uint64() }
+func (r *Rand) Int63() int64                    { r.touch(); return Int63() }
+func (r *Rand) Int31() int32                    { r.touch(); return Int31() }
+func (r *Rand) Int() int                        { r.touch(); return Int() }
+func (r *Rand) Int63n(n int64) int64            { r.touch(); return Int63n(n) }
+func (r *Rand) Int31n(n int32) int32            { r.touch(); return Int31n(n) }
+func (r *Rand) Intn(n int) int                  { r.touch(); return Intn(n) }
+func (r *Rand) Float64() float64                { r.touch(); return Float64() }
+func (r *Rand) Float32() float32                { r.touch(); return Float32() }
+func (*Rand) Seed(int64)                        {}
+func (r *Rand) Perm(n int) []int                { r.touch(); return Perm(n) }
+func (r *Rand) Shuffle(n int, f func(i, j int)) { r.touch(); Shuffle(n, f) }
+func (r *Rand) Read(p []byte) (int, error)      { r.touch(); return Read(p) }
